@@ -10,8 +10,7 @@ import RtcVerif.Model.C04Goals
   retained constraint `goal.function/nominal` from the achieved violation (target goals) or
   the achieved function value (minimisation goals); critical goals with `eps = 0`.
   (`violation_tolerance` is left at its default `inf`: the branch it guards is not modelled.)
-* store operations per function key: `storeOther` (soft-to-hard, `enforce="other"`) and
-  `storeSelf` (critical goal, `enforce="self"`).
+* the store itself (function key ↦ bounds) and the priority loop are in `Model/C02Loop.lean`.
 
 Core Lean only.
 -/
@@ -116,28 +115,5 @@ def hardFromEps (o : HOpts) (g : Goal) (ach : List Rat) : List EIvl :=
 /-- the entry a critical goal contributes (`epsilon = zeros`) -/
 def hardCritical (o : HOpts) (g : Goal) (nSteps : Nat) : List EIvl :=
   hardFromEps o g (List.replicate nSteps 0)
-
-/-! ## the store: function key ↦ bounds per step (one ensemble member, one of the two stores) -/
-
-abbrev Store := List (String × List EIvl)
-
-def Store.get (s : Store) (fk : String) : Option (List EIvl) := s.lookup fk
-
-/-- replace the entry of `fk`, keeping its position (`OrderedDict` assignment), or append -/
-def Store.set : Store → String → List EIvl → Store
-  | [], fk, v => [(fk, v)]
-  | (k, w) :: rest, fk, v => if k == fk then (k, v) :: rest else (k, w) :: Store.set rest fk v
-
-/-- soft-to-hard: `store[fk] = new.update_bounds(existing, enforce="other")` -/
-def storeOther (s : Store) (fk : String) (new : List EIvl) : Store :=
-  match s.get fk with
-  | none => s.set fk new
-  | some ex => s.set fk (updateBoundsTS new ex false)
-
-/-- critical goal: `store[fk].update_bounds(new)` (`enforce="self"`), or insertion -/
-def storeSelf (s : Store) (fk : String) (new : List EIvl) : Store :=
-  match s.get fk with
-  | none => s.set fk new
-  | some ex => s.set fk (updateBoundsTS ex new true)
 
 end RtcVerif.C04
